@@ -437,6 +437,8 @@ class AEval(dtable.Eval):
                 return b[1][int(m)]
             if b[0] == "ctor" and m.isdigit() and int(m) < len(b[2]):
                 return b[2][int(m)]
+            if b == DEFAULT and not m.isdigit():
+                return DEFAULT          # a field of a derived-Default value is the default of its own type
             raise Unknown("field %s of %s" % (m, b[:2]))
         if k == "Binary":
             op = e["op"]
@@ -914,6 +916,11 @@ class AEval(dtable.Eval):
             return C("Ok", UNIT)
         if p == "vec" and "args" in e:
             return L(*[self.ex(a, env) for a in e["args"]])
+        if p == "vec" and "repeat" in e:
+            x, n_ = self.ex(e["repeat"][0], env), self.ex(e["repeat"][1], env)
+            if n_[0] != "int" or n_[1] < 0 or n_[1] > 4096:
+                raise Unknown("vec![x; n] with n not a small integer")
+            return L(*([x] * n_[1]))
         if "macro!" + p not in env and p in getattr(self, "macros", {}) and "args" in e:
             env = dict(env)
             env["macro!" + p] = ("macro",) + tuple(self.macros[p])
@@ -1299,7 +1306,7 @@ class AEval(dtable.Eval):
             return self._is_place(node["base"], env)
         return False
 
-    def _collection_op(self, m, cur, vals):
+    def _collection_op(self, m, cur, vals, argn=None):
         """(new list, result) of a mutating collection method on a list / set / map value"""
         cur = list(cur)
         if m in ("push", "push_back") and len(vals) == 1:
@@ -1326,7 +1333,20 @@ class AEval(dtable.Eval):
         ismap = bool(cur) and all(x[0] == "tuple" and len(x[1]) == 2 for x in cur)
         if m in ("remove", "swap_remove", "remove_entry", "shift_remove", "take") and len(vals) == 1:
             k = vals[0]
-            if k[0] == "int" and not (ismap and any(x[1][0][0] == "int" for x in cur)) and not (cur and not ismap and all(x[0] == "int" for x in cur) and m != "swap_remove"):
+            by_index = None
+            if k[0] == "int" and cur and not ismap and all(x[0] == "int" for x in cur) and m != "swap_remove":
+                # integers in it and an integer argument: Vec::remove(index) or set.remove(&key)?  Only the spelling of the argument tells:
+                # `&k` is a key, a literal or an arithmetic expression an index; a bare name could be either
+                a0 = argn[0] if argn else None
+                while is_node(a0) and a0["k"] == "Paren":
+                    a0 = a0["expr"]
+                if is_node(a0) and a0["k"] == "Ref":
+                    by_index = False
+                elif is_node(a0) and a0["k"] in ("Lit", "Binary"):
+                    by_index = True
+                else:
+                    raise Unknown("%s(x) on a collection of integers: index or key?" % m)
+            if k[0] == "int" and not (ismap and any(x[1][0][0] == "int" for x in cur)) and by_index is not False:
                 if not 0 <= k[1] < len(cur):
                     raise Ret(C("!panic"))
                 if m == "swap_remove":
@@ -1464,6 +1484,8 @@ class AEval(dtable.Eval):
                 return args[0]
             if last == "take" and f["path"].endswith("mem::take") and len(args) == 1:
                 return args[0]
+            if f["path"] in ("String::new", "String::default", "std::string::String::new") and not args or (f["path"] == "String::with_capacity" and len(args) == 1):
+                return ("str", "")
             if last in ("default", "new") and not args and len(segs) == 2 and segs[0][:1].isupper():
                 return DEFAULT          # `Type::default()` / `Type::new()` of a type without a local constructor: its default value
             if getattr(self, "opaque_paths", None) is not None and self.opaque_paths.search(f["path"]):
@@ -1632,7 +1654,7 @@ class AEval(dtable.Eval):
         if m in ("remove", "swap_remove", "remove_entry", "pop_front") and m not in self.builtins and m not in self.mut_builtins and m not in self.funcs \
                 and is_node(rnode) and rnode["k"] == "Path" and rnode["path"] in env and env[rnode["path"]][0] == "list" and not isinstance(env[rnode["path"]], MutRef):
             vals = [self.ex(a, env) for a in e["args"]]
-            newl, res = self._collection_op(m, env[rnode["path"]][1], vals)
+            newl, res = self._collection_op(m, env[rnode["path"]][1], vals, e["args"])
             env[rnode["path"]] = L(*newl)
             return res
         if m in ("push", "push_back", "push_front", "insert", "extend", "pop", "pop_back", "clear", "remove", "swap_remove", "remove_entry", "pop_front") and m not in self.builtins and m not in self.mut_builtins:
@@ -1646,7 +1668,7 @@ class AEval(dtable.Eval):
                     curv = L()
                 if curv[0] == "list" and not isinstance(curv, MutRef):
                     vals = [self.ex(a, env) for a in e["args"]]
-                    newl, res = self._collection_op(m, curv[1], vals)
+                    newl, res = self._collection_op(m, curv[1], vals, e["args"])
                     self._place_store(tgt, L(*newl), env)
                     return res
             if is_node(tgt) and tgt["k"] == "MethodCall" and tgt["method"] in ("get_or_insert_with", "get_or_insert", "get_or_insert_default") and self._is_place(tgt["receiver"], env):
@@ -1664,7 +1686,7 @@ class AEval(dtable.Eval):
                         inner = L()
                     if inner[0] == "list":
                         vals = [self.ex(a, env) for a in e["args"]]
-                        newl, res = self._collection_op(m, inner[1], vals)
+                        newl, res = self._collection_op(m, inner[1], vals, e["args"])
                         self._assign_place(tgt["receiver"], C("Some", L(*newl)), env)
                         return res
         if m in ("push", "push_back", "insert", "extend") and is_node(rnode) and rnode["k"] == "Path" and rnode["path"] in env and env[rnode["path"]][0] == "list":
@@ -1673,7 +1695,7 @@ class AEval(dtable.Eval):
             if m in ("push", "push_back") and len(vals) == 1:
                 cur.append(vals[0])
             elif m == "insert" and len(vals) == 2:
-                newl, res = self._collection_op(m, cur, vals)       # Vec::insert(i, x) / map.insert(k, v) -> the previous value
+                newl, res = self._collection_op(m, cur, vals, e["args"])       # Vec::insert(i, x) / map.insert(k, v) -> the previous value
                 env[rnode["path"]] = ("list", tuple(newl))
                 return res
             elif m == "insert" and len(vals) == 1:
@@ -1726,6 +1748,31 @@ class AEval(dtable.Eval):
                     args2[int(mem)] = ("list", tuple(cur))
                     env[rnode["base"]["path"]] = ("ctor", holder[1], tuple(args2)) + tuple(holder[3:])
                 return UNIT
+        if m in ("insert", "insert_str") and len(e["args"]) == 2 and is_node(rnode) and rnode["k"] == "Path" and rnode["path"] in env and env[rnode["path"]][0] == "str" and m not in self.builtins \
+                and not isinstance(env[rnode["path"]], MutRef):
+            at, v = self.ex(e["args"][0], env), self.ex(e["args"][1], env)
+            if v[0] == "char":
+                v = ("str", chr(v[1]))
+            if at[0] != "int" or v[0] != "str":
+                raise Unknown("String::insert arguments")
+            cur_b = env[rnode["path"]][1].encode("utf-8")
+            try:
+                head, tail = cur_b[:at[1]].decode("utf-8"), cur_b[at[1]:].decode("utf-8")
+            except UnicodeDecodeError:
+                raise Unknown("String::insert not on a char boundary (panics)")
+            if at[1] > len(cur_b):
+                raise Unknown("String::insert past the end (panics)")
+            env[rnode["path"]] = ("str", head + v[1] + tail)
+            self._note_assigned(rnode["path"])
+            return UNIT
+        if m == "extend" and len(e["args"]) == 1 and is_node(rnode) and rnode["k"] == "Path" and rnode["path"] in env and env[rnode["path"]][0] == "str" and m not in self.builtins \
+                and not isinstance(env[rnode["path"]], MutRef):
+            v = self.ex(e["args"][0], env)
+            if v[0] != "list" or not all(x[0] in ("str", "char") for x in v[1]):
+                raise Unknown("String::extend with something that is not a list of chars / strings")
+            env[rnode["path"]] = ("str", env[rnode["path"]][1] + "".join(chr(x[1]) if x[0] == "char" else x[1] for x in v[1]))
+            self._note_assigned(rnode["path"])
+            return UNIT
         if m in ("push_str", "push") and len(e["args"]) == 1 and is_node(rnode) and rnode["k"] == "Path" and rnode["path"] in env and env[rnode["path"]][0] == "str" and m not in self.builtins:
             v = self.ex(e["args"][0], env)
             if v[0] == "char":
@@ -1901,6 +1948,24 @@ class AEval(dtable.Eval):
                 return C("Some", (max if m == "max" else min)(xs, key=lambda x: x[1])) if xs else C("None")
             if m == "step_by" and len(args) == 1 and args[0][0] == "int" and args[0][1] > 0:
                 return L(*xs[::args[0][1]])
+            if m == "partition" and len(args) == 1:
+                yes, no = [], []
+                for x in xs:
+                    (yes if self._b(self.apply(args[0], [x])) else no).append(x)
+                return T(L(*yes), L(*no))
+            if m in ("max_by_key", "min_by_key") and len(args) == 1:
+                if not xs:
+                    return C("None")
+                ks = [self.apply(args[0], [x]) for x in xs]
+                if not all(k_[0] == "int" for k_ in ks) and not all(k_[0] == "str" for k_ in ks):
+                    raise Unknown("%s with keys that are not all integers / strings" % m)
+                best = 0
+                for i_ in range(1, len(xs)):
+                    if (m == "max_by_key" and ks[i_][1] >= ks[best][1]) or (m == "min_by_key" and ks[i_][1] < ks[best][1]):
+                        best = i_          # (max: the last of equal maxima; min: the first of equal minima - as std)
+                return C("Some", xs[best])
+            if m == "windows" and len(args) == 1 and args[0][0] == "int" and args[0][1] > 0:
+                return L(*[L(*xs[i_:i_ + args[0][1]]) for i_ in range(0, len(xs) - args[0][1] + 1)])
             if m == "any":
                 return B(any(self._b(self.apply(args[0], [x])) for x in xs))
             if m == "all":
@@ -2112,6 +2177,8 @@ class AEval(dtable.Eval):
                 return L(*r[2][:1]) if some else L()
             if m == "chain" and len(args) == 1 and args[0][0] == "list":
                 return L(*(list(r[2][:1] if some else []) + list(args[0][1])))
+            if m == "chain" and len(args) == 1 and args[0][0] == "ctor" and args[0][1] in ("Some", "None") and len(args[0][2]) <= 1:
+                return L(*(list(r[2][:1] if some else []) + list(args[0][2][:1])))
             if m == "map_or":
                 return self.apply(args[1], [r[2][0]]) if some else args[0]
             if m == "map_or_else":
@@ -2227,6 +2294,10 @@ class AEval(dtable.Eval):
             return ("str", t.strip())
         if m == "is_ascii" and not args:
             return B(t.isascii())
+        if m == "split_whitespace" and not args:
+            return L(*[("str", x) for x in t.split()])
+        if m == "split_ascii_whitespace" and not args:
+            return L(*[("str", x) for x in re.split(r"[ \t\n\x0c\r]+", t) if x])
         if m == "rsplit" and sa is not None and len(args) == 1 and sa != "":
             return L(*[("str", x) for x in reversed(t.split(sa))])
         if m in ("splitn", "rsplitn") and len(args) == 2 and args[0][0] == "int" and sa is None:
